@@ -2453,9 +2453,9 @@ func (m *Machine) processHandlers(e *Event) (Result, bool) {
 		switch {
 		case timeout:
 			return Canceled, handlerCalled
-		case strings.HasSuffix(e.Name, SuffixState):
-		case strings.HasSuffix(e.Name, SuffixEnd):
-			// returns from State and End handlers are ignored
+		case tx != nil && tx.latestHandlerIsFinal:
+			// returns from final handlers (State, End) are ignored; decided by
+			// the phase, not by the name (states can be named FooEnd / FooState)
 		default:
 			if !ret {
 				return Canceled, handlerCalled
